@@ -1018,6 +1018,8 @@ _cases = {}
 
 def case_cost(c):
     g = c.get('geo', '')
+    if g.startswith('g2'):
+        return 2000 if c['op'] == 'refine_all' else 100
     if g.startswith('g7+'):
         return 60
     if g.startswith('g7'):
